@@ -2369,9 +2369,27 @@ class sptensor:
         if access_type == IndexVariant.SUBTENSOR:
             updated_key = []
             for dim, entry in enumerate(key):
+                # Negative positions count from the end of an existing mode
+                extent = int(self.shape[dim]) if dim < self.ndims else None
                 if isinstance(entry, (int, np.integer)) and entry < 0:
                     # Plain int: shape entries may be numpy integers
                     entry = int(self.shape[dim] + entry)  # noqa: PLW2901
+                elif isinstance(entry, slice) and extent is not None:
+                    start, stop = entry.start, entry.stop
+                    if start is not None and start < 0:
+                        start = max(extent + start, 0)
+                    if stop is not None and stop < 0:
+                        stop = max(extent + stop, 0)
+                    entry = slice(start, stop, entry.step)  # noqa: PLW2901
+                elif (
+                    isinstance(entry, (list, tuple, np.ndarray))
+                    and extent is not None
+                    and len(entry) > 0
+                    and np.min(entry) < 0
+                ):
+                    entry = [  # noqa: PLW2901
+                        int(e + extent) if e < 0 else int(e) for e in entry
+                    ]
                 updated_key.append(entry)
             return self._set_subtensor(updated_key, value)
         # Case 2: Subscripts
